@@ -122,4 +122,39 @@ PROPS = {
             {"name": "nativefuzz", "test": "FuzzC09", "kind": "fuzz", "tiers": ["thorough"], "shards": 1, "fuzztime_thorough": "600s", "cwd": "/verif/harness/props", "timeout_thorough": 1200},
         ],
     },
+    "C13": {
+        "manifest": {
+            "text": "generated write/sync histories under every threshold configuration followed by 5-15 idle sync rounds; frames of the live WAL generation counted by the independent decoder after every successful sync; level-0 file counts per idle round",
+            "note": "premise enforced by construction (no application transaction or reader open at sync time); 'small constant' instantiated as 3 files, silence required from idle round 4 on; two configuration-edge findings excluded by shape",
+            "technique": "stateful property-based testing (rapid) with an invariant over the history",
+        },
+        "binary": "props",
+        "level": "exploration",
+        "rule": ("histories of 6-30 steps of application writes (all op kinds except application checkpoints) and litestream Sync/SyncAndWait with every "
+                 "open transaction closed before each sync, x (MinCheckpointPageN in {1,2,5,20,1000}, TruncatePageN in {0,3,10,50}, CheckpointInterval in "
+                 "{0,1ns,1h}, MaxSyncWALBytes in {0,1,3 frames,64MiB}), then one catch-up sync and k in 5..15 idle Sync+Replica.Sync rounds. "
+                 "Non-trivial = the write phase crossed the lowest threshold at least once and the idle phase started with a non-empty WAL; "
+                 "distinct = hash of (config, abstracted ops, k)."),
+        "assumptions": ["monitors off: the harness issues the syncs", "CheckpointInterval only takes values whose outcome is independent of test speed"],
+        "runs": [
+            {"name": "histories", "test": "TestProp_C13", "kind": "rapid", "checks_quick": 500, "checks_thorough": 20000, "shards": 6},
+        ],
+    },
+    "C14": {
+        "manifest": {
+            "text": "the same deterministic application history executed in lockstep with and without litestream (checkpoints of every mode, snapshots, compaction, close/re-attach scheduled between statements); statement outcomes, logical dump, schema delta, lock-table emptiness, integrity_check and journal mode compared",
+            "note": "application statements contain no randomness or time; logical comparison (page layout is C01's business)",
+            "technique": "differential property-based testing (rapid) against a litestream-free control run",
+        },
+        "binary": "props",
+        "level": "exploration",
+        "rule": ("paired histories of 8-36 steps (same generator as C01 plus re-attach) executed on database A (litestream attached) and control B; "
+                 "comparison after every application statement (outcome class) and at 4 points (digest of all user rows and schema, sqlite_master "
+                 "delta = exactly the two bookkeeping tables, _litestream_lock empty, integrity_check, journal_mode). Non-trivial = at least one "
+                 "litestream checkpoint ran including a PASSIVE one (barrier transaction rolled back); distinct = hash of (config, abstracted ops)."),
+        "assumptions": ["busy results of application RESTART/TRUNCATE checkpoints may differ (documented effect of litestream's read lock) and are not compared"],
+        "runs": [
+            {"name": "paired-histories", "test": "TestProp_C14", "kind": "rapid", "checks_quick": 400, "checks_thorough": 15000, "shards": 6},
+        ],
+    },
 }
